@@ -1,9 +1,10 @@
 (* Extract.v — OCaml extraction of the executable model (ExtrOcamlBasic only: bool, option, list,
    prod, unit, sumbool map to OCaml's; N, positive, nat stay the extracted inductive types). *)
 From Coq Require Extraction ExtrOcamlBasic.
-From CsModel Require Import Base Green Builder Extracted.
+From CsModel Require Import Base Green Builder BuilderSpec BuilderProofs Interner Extracted.
 Extraction Language OCaml.
 Extraction "model.ml"
   utf8_width byte_len text_eqb
   cache_threshold
+  intern_c try_from_u32 into_u32 to_lasso from_lasso lasso_cap resolve
   geq tok_text denote gtext empty_cache new_builder b_run b_finish build green_node_new.
